@@ -184,6 +184,38 @@ pub fn run(p: &Params, rep: &mut Report) {
         ck.rep.sample(|| format!("a={} b={} c={} i={} n={}", fmt_w(&a), fmt_w(&b), fmt_w(&c), i, n));
     }
     ck.rep.count("random_tuples", nrand);
+    // long subjects (1k-20k characters, two letters, planted patterns): same definitions, bigger indices
+    let nlong = p.size(40, 400);
+    for _ in 0..nlong {
+        let la = 1000 + rng.usize(19_000);
+        let mut a: Vec<u32> = (0..la).map(|_| if rng.chance(1, 9) { 0x62 } else { 0x61 }).collect();
+        let lb = 1 + rng.usize(6);
+        let st = rng.usize(la - lb);
+        let b: Vec<u32> = if rng.chance(1, 2) { a[st..st + lb].to_vec() } else { (0..lb).map(|_| *rng.pick(&[0x61u32, 0x62])).collect() };
+        if rng.chance(1, 2) {
+            let pos = la - lb - rng.usize(3.min(la - lb));
+            for (k, ch) in b.iter().enumerate() {
+                if pos + k < la {
+                    a[pos + k] = *ch;
+                }
+            }
+        }
+        let c: Vec<u32> = vec![0x63; rng.usize(3)];
+        let i = match rng.below(4) {
+            0 => la as i32,
+            1 => la as i32 - lb as i32,
+            2 => rng.below(la as u64) as i32,
+            _ => 0,
+        };
+        let n = match rng.below(3) {
+            0 => i32::MAX,
+            1 => la as i32,
+            _ => rng.below(la as u64) as i32,
+        };
+        check_tuple(&mut ck, &a, &b, &c, i, n);
+        ck.rep.eval(Some(&format!("long{}|{}|{}|{}", la, fmt_w(&b), i, n)));
+        ck.rep.inc("long_subject_tuples");
+    }
 }
 
 pub fn replay(kind: &str, text: &str, seed: u64, rep: &mut Report) -> bool {
